@@ -11,6 +11,7 @@ import (
 	"net"
 	"net/http"
 	"net/http/httptest"
+	"net/url"
 	"os"
 	"strings"
 	"sync"
@@ -1484,4 +1485,146 @@ func c17HTTPReplyLost(ev *vlib.Evidence, idx int) {
 		}
 	}
 	ev.Case(fmt.Sprintf("http reply-lost messages=%d lost=%d idx=%d", n, lost, idx), lost > 0)
+}
+
+// c19AdvertisedOK reports whether what the pool stores for a host is an
+// address under the host's own id at one of the given host:ports.
+func c19AdvertisedOK(uri string, id string, hostports ...string) (string, bool) {
+	u, err := url.Parse(uri)
+	if err != nil || u.Scheme != "enode" || u.User == nil {
+		return fmt.Sprintf("is not an enode address (parse error %v)", err), false
+	}
+	if !strings.EqualFold(u.User.Username(), id) {
+		return "carries another id", false
+	}
+	for _, hp := range hostports {
+		if u.Host == hp {
+			return "", true
+		}
+	}
+	return fmt.Sprintf("host:port %q is none of %v", u.Host, hostports), false
+}
+
+// c19RegistrationStoreFaults (C19): a host that is already registered
+// registers again from another address while store operations fail in the
+// middle of that registration. Whatever the outcome, what the pool has stored
+// for the host and hands to clients is an address under the host's own id at
+// an address it registered from; after a registration that succeeded, the new one.
+func c19RegistrationStoreFaults(ev *vlib.Evidence, driver string, idx int) {
+	r := vlib.Rand("C19-storefault-"+driver, idx)
+	var chaos *vlib.Chaos
+	w, err := vlib.NewWorld(vlib.WorldOptions{Driver: driver, Price: big.NewInt(1000), Interval: time.Minute,
+		WrapStore: func(s store.Store) store.Store { chaos = vlib.NewChaos(s, int64(idx)); return chaos }})
+	if err != nil {
+		panic(err)
+	}
+	defer w.Close()
+	host := vlib.NewIdentity("c19fhost", idx%9)
+	first := fmt.Sprintf("10.0.%d.1", idx%200)
+	second := fmt.Sprintf("10.0.%d.2", idx%200)
+	if _, err := w.ConnectHost(host, "geth", first+":51000"); err != nil {
+		ev.Inconclusive(fmt.Sprintf("c19 store-fault setup: %v", err))
+		return
+	}
+	op := vlib.Pick(r, "SetNode", "SetNode", "SetNode", "GetNodeBalance", "GetNode")
+	nth := 1 + r.Intn(3)
+	chaos.ResetCalls()
+	chaos.Fail = func(o string, n int) bool { return o == op && n == nth }
+	_, rerr := w.ConnectHost(host, "geth", second+":52000")
+	hit := chaos.Calls(op) >= nth
+	chaos.Fail = nil
+	ev.Case(fmt.Sprintf("registration-store-fault/%s/%s#%d/refused=%v", driver, op, nth, rerr != nil), hit)
+	ev.Count("re-registrations-with-a-failing-store-call", 1)
+	detail := map[string]interface{}{"driver": driver, "failing": fmt.Sprintf("%s call #%d", op, nth), "fault_reached": hit, "registration_error": fmt.Sprint(rerr), "index": idx}
+	allowed := []string{first + ":30303", second + ":30303"}
+	if rerr == nil {
+		allowed = allowed[1:]
+	}
+	n, gerr := w.RawStore.GetNode(store.NodeID(host.NodeID))
+	if gerr == nil && n.IsHost {
+		if why, ok := c19AdvertisedOK(n.URI, host.NodeID, allowed...); !ok {
+			detail["stored_uri"], detail["why"] = n.URI, why
+			ev.Violate("stored-address-wrong:after-registration-with-store-fault", detail)
+			return
+		}
+	}
+	// what a client is handed
+	client := vlib.NewIdentity("c19fclient", idx%5)
+	cc, err := w.ConnectClient(client, "geth", "10.9.9.9:40000")
+	if err != nil {
+		return
+	}
+	arg := pool.PeerRequest{Num: 3, Kind: "geth"}
+	nn := w.NextNonce(client.NodeID)
+	out := guardedCall(cc.AgentSide, "vipnode_peer", vlib.RefSign(client.Key, "vipnode_peer", client.NodeID, nn, arg), client.NodeID, nn, arg)
+	for _, h := range c08Result(out) {
+		if string(h.ID) != host.NodeID {
+			continue
+		}
+		if why, ok := c19AdvertisedOK(h.URI, host.NodeID, allowed...); !ok {
+			detail["handed_out_uri"], detail["why"] = h.URI, why
+			ev.Violate("handed-out-address-wrong:after-registration-with-store-fault", detail)
+			return
+		}
+	}
+}
+
+// c19ReRegistrationDuringKeepalives (C19): a host's keep-alives are in flight
+// on its old connection while it registers again from a new address. Once a
+// registration has succeeded and the keep-alives in flight have finished, the
+// pool advertises the host at the address of that registration.
+func c19ReRegistrationDuringKeepalives(ev *vlib.Evidence, driver string, idx int) {
+	w, err := vlib.NewWorld(vlib.WorldOptions{Driver: driver})
+	if err != nil {
+		panic(err)
+	}
+	defer w.Close()
+	host := vlib.NewIdentity("c19khost", idx%9)
+	c0, err := w.ConnectHost(host, "geth", "10.1.0.1:51000")
+	if err != nil {
+		ev.Inconclusive(fmt.Sprintf("c19 keep-alive race setup: %v", err))
+		return
+	}
+	stop := make(chan struct{})
+	done := make(chan struct{})
+	var keepalives int64
+	go func() {
+		defer close(done)
+		for k := 0; ; k++ {
+			select {
+			case <-stop:
+				return
+			default:
+			}
+			w.Update(c0.AgentSide, host, nil, uint64(k))
+			atomic.AddInt64(&keepalives, 1)
+		}
+	}()
+	rounds := 25
+	ev.Case(fmt.Sprintf("re-registration-during-keep-alives/%s/%d", driver, idx), true)
+	for k := 1; k <= rounds; k++ {
+		addr := fmt.Sprintf("10.1.%d.%d", idx%200, k+1)
+		c, rerr := w.ConnectHost(host, "geth", addr+":52000")
+		if rerr != nil {
+			continue
+		}
+		// let the keep-alive that was in flight during the registration finish, and one more
+		seen := atomic.LoadInt64(&keepalives)
+		for spins := 0; atomic.LoadInt64(&keepalives) < seen+2 && spins < 2000; spins++ {
+			time.Sleep(time.Millisecond)
+		}
+		n, gerr := w.RawStore.GetNode(store.NodeID(host.NodeID))
+		ev.Count("re-registrations-during-keep-alives", 1)
+		if gerr == nil {
+			if why, ok := c19AdvertisedOK(n.URI, host.NodeID, addr+":30303"); !ok {
+				close(stop)
+				<-done
+				ev.Violate("stored-address-is-not-the-latest-registration:keep-alives-in-flight", map[string]interface{}{"driver": driver, "registration": k, "registered_from": addr, "stored_uri": n.URI, "why": why, "index": idx})
+				return
+			}
+		}
+		_ = c
+	}
+	close(stop)
+	<-done
 }
